@@ -2120,6 +2120,12 @@ class Evaluator:
             if isinstance(s, ast.Try):
                 # rewritten in place (see try_rewrite) so that exits inside it meet the right continuation
                 return self.block(self.try_rewrite(s, st) + list(stmts[i + 1:]), st, cont)
+            if isinstance(s, ast.Match):
+                from .normalise import desugar_match
+
+                alt = desugar_match(s)
+                if alt is not None:
+                    return self.block(list(alt) + list(stmts[i + 1:]), st, cont)
             if isinstance(s, ast.If):
                 c = self.cond(s.test, st)
                 rest = list(stmts[i + 1:])
